@@ -169,7 +169,7 @@ def build_all(verbose=False, force=False):
 
         # 1. translator: regenerate coq/Gen/*.v from the current source
         tdir = os.path.join(VERIF, "translator")
-        if os.path.exists(os.path.join(tdir, "main.go")):
+        if os.path.exists(os.path.join(tdir, "main.go")) and os.path.exists(os.path.join(tdir, "READY")):
             shutil.copy(os.path.join(REPO, "go.sum"), os.path.join(tdir, "go.sum"))
             rc, out = sh(["go", "build", "-o", os.path.join(BUILD, "spg2coq"), "."], cwd=tdir, env=GOENV, timeout=600)
             if rc == 0:
